@@ -552,3 +552,17 @@ Qed.
 
 Theorem key_okb_iff ncols wire values : key_okb ncols wire values = true <-> key_ok ncols wire values.
 Proof. split; [apply key_okb_sound|apply key_okb_complete]. Qed.
+
+(* ---- without the length premise (Murmur_proofs part 8) ---- *)
+Theorem ps_calculate_token_spec_all chk p ncols wire values :
+  wire <> [] -> key_ok ncols wire values ->
+  (length wire = 1%nat \/ Forall fits (spec_components wire values)) ->
+  ps_calculate_token chk p ncols wire values = Ok (Some (spec_token p wire values)).
+Proof.
+  intros Hne Hk Hfit. destruct (pk_new_key_ok chk _ _ _ Hk) as (slots & Hs & Hf).
+  unfold ps_calculate_token. destruct wire as [|w0 wr]; [contradiction|].
+  rewrite Hs. unfold pk_calculate_token.
+  destruct (encoded_pk_chunks_ok slots) as (chunks & Hc & Hcat).
+  { rewrite Hf. destruct Hfit as [H|H]; [left; unfold spec_components; rewrite map_length; exact H|right; exact H]. }
+  rewrite Hc. rewrite feed_chunking_all. rewrite Hcat, Hf. reflexivity.
+Qed.
